@@ -170,6 +170,8 @@ class State:
         for f in self.closure():
             if f[0] == "type" and f[1] == t:
                 ts = f[2] if ts is None else ts & f[2]
+        if ts is None and isinstance(t, tuple) and len(t) == 3 and t[0] == "sub" and is_call(t[1], "ext:collections.Counter"):
+            ts = frozenset(["int"])  # the values of a Counter are counts
         if ts is None and isinstance(t, tuple) and len(t) == 3 and t[0] == "elem":
             # the elements of a str are one-character strs, those of bytes are ints
             bt = self.types(t[1])
